@@ -16,7 +16,7 @@ MANIFEST = {
             "own ID and was really received), no lost reply (a response that reached the lookup before the timer fired is "
             "returned), the holder of resMu is never blocked, every unfinished attempt can be completed from ANY reachable state "
             "in at most 6 steps without anybody else moving, resCh holds exactly the registered unfinished attempts (empty when "
-            "all ended, no duplicates), at most messageMaxRetries+1 attempts and 4 own steps per attempt. For the code before "
+            "all ended, no duplicates), at most messageMaxRetries+1 distinct attempts per call (as a count) and 4 own steps per attempt. For the code before "
             "the fix commit the model yields the two defect schedules (early reply lost; permanent deadlock, proved permanent "
             "for all continuations), and a buffered channel alone is shown insufficient. Tie: translate/reqresp regenerates "
             "the skeleton of sendRequestMessage/onResponse/request and the constants from the Go source (fail-closed) and Coq "
@@ -200,7 +200,7 @@ def run(ck):
     if ck.tier == "quick":
         args = ["-det", "40", "-rounds", "2", "-race", "30", "-racecalls", "16"]
     else:
-        args = ["-det", "80", "-rounds", "8", "-race", "600", "-racecalls", "24"]
+        args = ["-det", "80", "-rounds", "6", "-race", "300", "-racecalls", "24"]
     recs = ck.run_harness(binp, args)
     if recs is None:
         return
